@@ -288,3 +288,8 @@ vpd_single = Contract("thejoker.data_helpers.validate_prepare_data", PROPERTY,
 
 CONTRACTS += thejoker_init + vpd_checks + [vpd_single]
 CALLEES.update({"thejoker.data.RVData": _ctor, "thejoker.data.RVData.__init__": _ctor, "thejoker.likelihood_helpers.get_trend_design_matrix": _trend})
+
+# every call prepares and uses THIS call's data, whatever earlier calls left on the sampler (contract stated in c08.py)
+from . import c08 as _C08H   # noqa: E402
+from .chain import clone as _clone   # noqa: E402
+CONTRACTS += [_clone(_c, home="c08") for _c in _C08H.make_helper]
